@@ -7,6 +7,7 @@ import (
 	"bytes"
 	"context"
 	"fmt"
+	"io"
 	"net"
 	"net/http"
 	"strings"
@@ -190,6 +191,9 @@ func c15Pair(x *explore.Ctx, dc, uc bool, bufs int, tier string) {
 	maxSeq := 3
 	side := x.Pick(2, "toggling-side")
 	n := x.Pick(maxSeq+1, "toggle-count")
+	// the setting calls happen either between messages or while a message writer is open
+	// (after NextWriter, before the first Write): the open message must stay decodable
+	midMessage := n > 0 && x.Pick(2, "toggles-while-writer-open") == 1
 	var names []string
 	sender, senderNC, recv := p.client, p.cnc, p.server
 	if side == 1 {
@@ -197,12 +201,31 @@ func c15Pair(x *explore.Ctx, dc, uc bool, bufs int, tier string) {
 	}
 	_ = senderNC
 	for round := 0; round < 2; round++ {
+		var open io.WriteCloser
+		if round == 0 && midMessage {
+			w, err := sender.NextWriter(websocket.BinaryMessage)
+			if err != nil {
+				x.Failf(key("write-failed"), "NextWriter failed: %v", err)
+			}
+			open = w
+		}
 		for i := 0; i < n; i++ {
 			if round == 0 {
 				op := ops[x.Pick(len(ops), fmt.Sprintf("toggle%d", i))]
 				names = append(names, op.name)
 				op.do(sender)
 			}
+		}
+		if open != nil {
+			payload := bytes.Repeat([]byte("open-writer "), 30)
+			_, err1 := open.Write(payload)
+			err2 := open.Close()
+			if err1 != nil || err2 != nil {
+				x.Failf(key("write-failed"), "message opened before %v failed: %v / %v", names, err1, err2)
+			}
+			p.pump()
+			t, got, err := recv.ReadMessage()
+			x.Check(err == nil && t == websocket.BinaryMessage && bytes.Equal(got, payload), key("undecodable-open-writer-toggle"), "message whose writer was open during %v is not decodable by the peer: err=%v got %s", names, err, short(got))
 		}
 		for mi, payload := range [][]byte{bytes.Repeat([]byte("abcabc"), 50), Pattern(3, 130), {}} {
 			if err := sender.WriteMessage(websocket.BinaryMessage, payload); err != nil {
